@@ -102,7 +102,7 @@ CHECKS["C06"] = dict(
 CHECKS["C01"] = dict(
     category="proof",
     text="The real XML writer (every *XMLNode builder reached from XMLFileWriter.write_to_file) and the real XML reader (every *Factory reached from XMLFileReader.open) are executed symbolically back to back through the public CommonRoadFileWriter / CommonRoadFileReader on abstract XML trees: a lanelet network (lanelets with relations, adjacency, markings, types, users, stop line with references, traffic sign, traffic light with cycle, intersection), a static obstacle, dynamic obstacles with trajectory and with set-based prediction incl. signal states, phantom and environment obstacles, a planning problem with region / interval goal states, and the scenario meta data, all with symbolic coordinates and values, for decimal precisions 1, 4, 12 (thorough: 1..12). Postcondition: the read objects reproduce the written ones - ids, enums, flags, time steps, populated attributes identical, every real within 10^-d (unset initial-state attributes read back as 0) - discharged by z3 for all values. Further families: one trajectory per state class (PM, KS, KST, ST, STD, MB, ExtendedPM) with every attribute symbolic, trajectory states with interval- and region-valued attributes, an obstacle with a shape group, and EXHAUSTIVE enumeration-member transport (every Tag, TimeOfDay / Weather / Underground member, every LaneletType, RoadUser, LineMarking incl. stop lines, every ObstacleType for static and dynamic obstacles, every TrafficLightState and direction, every traffic sign id of each of the 14 supported countries, through the country table of the reader). Known finding: the virtual flag of traffic signs.",
-    note="float_to_str enters the whole-file contracts through its contract (plain decimal text, monotone, within 10^-d, truncating outside exponent notation), and that contract is itself discharged on the real body of float_to_str for a symbolic float (float and numpy.float64) and each decimal precision 1..12 (contracts/c01_f2s.py, 24 contracts) relative to a three-fact text model of str(float) / format(f, '.<d>f') (exponent form <=> f != 0 and (|f| < 1e-4 or |f| >= 1e16); otherwise <digits>.<digits> denoting f; format denotes f rounded to d decimals) - the three facts and the contract are additionally evaluated on real floats by the bounded layer (labelled bounded); XML serialise/parse is the identity on (tag, attributes, text, children) trees; str(float) denotes exactly the float; object collections have small fixed sizes; geometry is concrete in the enumeration-member contracts (symbolic in all others); orientation intervals shorter than 2pi-0.25; information the format does not store (first occurrences, colour list, centre line, lanelet assignment) is excluded",
+    note="float_to_str enters the whole-file contracts through its contract (plain decimal text, monotone, within 10^-d, truncating outside exponent notation), and that contract is itself discharged on the real body of float_to_str for a symbolic float (float and numpy.float64) and each decimal precision 1..12 (contracts/c01_f2s.py, 24 contracts) relative to a three-fact text model of str(float) / format(f, '.<d>f') (exponent form <=> f != 0 and (|f| < 1e-4 or |f| >= 1e16); otherwise <digits>.<digits> denoting f; format denotes f rounded to d decimals) - the three facts and the contract are additionally evaluated on real floats by the bounded layer (labelled bounded); XML serialise/parse is the identity on (tag, attributes, text, children) trees; str(float) denotes exactly the float; object collections have small fixed sizes; geometry is concrete in the enumeration-member contracts (symbolic in all others); orientation intervals shorter than 2pi-0.25; information the format does not store (first occurrences, colour list, centre line, lanelet assignment) is excluded; NOT compared: the vertices of Polygon shapes (every attribute of a Polygon is treated as a derived cache by the round-trip comparison; comparing the re-oriented ring of the re-constructed polygon gave counter-models that do not replay - DESIGN.md section 10 entry 21)",
     technique="deductive: AST symbolic execution of real writer and reader source on abstract XML trees, round-trip postcondition discharged by z3; float_to_str by callee contract, itself discharged on its body over a text model of str(float)",
     design_ref="5/C01",
 )
@@ -118,7 +118,7 @@ CHECKS["C15"] = dict(
 CHECKS["C18"] = dict(
     category="proof",
     text="Read-only operations are executed symbolically from the real source on scenarios / planning problems with symbolic content and the observable view (all constructor-visible attributes of every reachable object; declared caches and derived geometry excluded) is compared before and after: occupancy_at_time for every obstacle role (incl. trajectories of states without an orientation attribute), occupancies_at_time_step, obstacle_states_at_time_step, find_lanelet_by_position, traffic-light state, lanelet distance / polygon, GoalRegion.is_reached (point-mass state), __eq__ / __hash__ of scenario and planning-problem set, deepcopy, LaneletNetwork.__getstate__, and writing to XML. Postcondition view' == view (tolerance 0), discharged by z3.",
-    note="route queries (predecessors / successors in range) through lanelets whose reference lists are not ascending; export (protobuf, then XML) of planning problems whose goal is given by lanelets with a sparse goal-lanelet map; drawing the lanelet network (MPRenderer.draw_lanelet_network: solid line markings, centre line coloured by a traffic light, stop line, border vertices; 2-D and 3-D boundary polylines; thorough tier also labels) IS under contract: numpy basic-indexing results, rows, reshape / ravel / transpose and asarray / ascontiguousarray of an array are modelled as views that write through to their base, and op= on an array writes in place, so an edit of a view of the lanelet vertices instead of a copy fails the frame obligation (shapely LineString.project / interpolate return unconstrained values; TrafficLight.draw, dashed markings, obstacle / planning-problem drawing and render() are not under contract; a later write to the base is not seen through an already taken view); protobuf export IS under contract (pbmodel); the scenario id carries an unsorted prediction-id list and the network a lanelet built with default arguments so that in-place normalisations show; pickling is covered through __getstate__/__setstate__ only; 'exporting before and after gives the same file' follows from view equality plus C15",
+    note="route queries (predecessors / successors in range) through lanelets whose reference lists are not ascending; export (protobuf, then XML) of planning problems whose goal is given by lanelets with a sparse goal-lanelet map; drawing the lanelet network (MPRenderer.draw_lanelet_network: solid line markings, centre line coloured by a traffic light, stop line, border vertices; 2-D and 3-D boundary polylines; thorough tier also labels) IS under contract: numpy basic-indexing results, rows, reshape / ravel / transpose and asarray / ascontiguousarray of an array are modelled as views that write through to their base, and op= on an array writes in place, so an edit of a view of the lanelet vertices instead of a copy fails the frame obligation (shapely LineString.project / interpolate return unconstrained values; drawing an obstacle of every role (obstacle.draw -> draw_*_obstacle -> _draw_occupancy -> draw_polygon / rectangle / ellipse; the C19 builders, symbolic time window) is under the same frame contract; TrafficLight.draw, dashed markings, planning-problem drawing and render() are not under contract; Polygon._vertices counts as primary data in these frame comparisons (it was skipped as a cache until the fourth session; the C01 / C02 round-trip comparisons still skip it, DESIGN.md section 10 entry 21); a later write to the base is not seen through an already taken view); protobuf export IS under contract (pbmodel); the scenario id carries an unsorted prediction-id list and the network a lanelet built with default arguments so that in-place normalisations show; pickling is covered through __getstate__/__setstate__ only; 'exporting before and after gives the same file' follows from view equality plus C15",
     technique="deductive: frame condition (modifies nothing observable) by AST symbolic execution of real source with structural snapshots, discharged by z3",
     design_ref="5/C18",
 )
@@ -150,7 +150,7 @@ CHECKS["C13"] = dict(
 CHECKS["C02"] = dict(
     category="proof",
     text="The real ProtobufFileWriter (every XxxMessage.create_message) and ProtobufFileReader (every XxxFactory.create_from_message, incl. StateFactory class matching) are executed symbolically back to back on message trees built from the REAL descriptors of the generated *_pb2 classes (type checks, 32-bit ranges, presence, oneof, required fields as in the pure-python protobuf implementation the repository runs on). Content groups as in C01 (lanelet network with stop line, sign incl. virtual flag and first occurrences, light incl. offset/direction/active, intersection; static / dynamic (trajectory with signal states incl. horn, set-based) / phantom / environment obstacles; planning problems with interval- and region-valued goal states) plus: every object built through its public constructor with default arguments (incl. id 0 neighbours and a cycle-less light switched on), one trajectory per state class (PM, KS, KST, ST, STD, MB, ExtendedPM), trajectory states with interval- and region-valued attributes, a shape-group obstacle, meta data (author, affiliation, source, tags, location) given to the writer instead of the scenario, and EXHAUSTIVE transport of every enumeration member the .proto files define (tags, environment, lanelet types, users, markings, obstacle types, light states and directions, every sign id of the 13 countries with a proto enumeration). Postcondition: structural equality of everything, reals IDENTICAL (tolerance 0); all reals, ids and time steps symbolic.",
-    note="the wire format is assumed: serialise/parse is the identity on (presence, values, order), doubles 64-bit (pbmodel, trusted; cross-checked natively against the real library by tools/native_all.py); preconditions: integers fit the format's 32-bit fields, enumeration members exist in the .proto (HEAVY_RAIN etc. do not), centre line = mean of the boundaries (the format stores only the boundaries), writer given author/affiliation/source/tags; a light without cycle reads back with an empty cycle (treated as the same content, both readers do this); structure bounds as in C01 (2-vertex boundaries, 2 trajectory states, 1-3 objects per kind). Known finding: KSTState trajectories cannot be written (no hitch_angle field in obstacle.proto).",
+    note="NOT compared: the vertices of Polygon shapes (DESIGN.md section 10 entry 21); the wire format is assumed: serialise/parse is the identity on (presence, values, order), doubles 64-bit (pbmodel, trusted; cross-checked natively against the real library by tools/native_all.py); preconditions: integers fit the format's 32-bit fields, enumeration members exist in the .proto (HEAVY_RAIN etc. do not), centre line = mean of the boundaries (the format stores only the boundaries), writer given author/affiliation/source/tags; a light without cycle reads back with an empty cycle (treated as the same content, both readers do this); structure bounds as in C01 (2-vertex boundaries, 2 trajectory states, 1-3 objects per kind). Known finding: KSTState trajectories cannot be written (no hitch_angle field in obstacle.proto).",
     technique="deductive: AST symbolic execution of the real protobuf writer and reader on descriptor-driven message trees, exact round-trip postcondition discharged by z3",
     design_ref="5/C02",
 )
